@@ -248,6 +248,9 @@ func catalogue() []catMsg {
 		{"response", "num", must(jsonrpc2.NewResponse(jsonrpc2.NewNumberID(11), false, nil))},
 		{"response", "num", must(jsonrpc2.NewResponse(jsonrpc2.NewNumberID(12), nil, errWithData()))},
 		{"call", "num", must(jsonrpc2.NewCall(jsonrpc2.NewNumberID(13), "m", map[string]any{"a": []int{1, 2}}))},
+		// the empty string is a string id too (JSON-RPC: "a String, Number, or NULL value")
+		{"call", "str", must(jsonrpc2.NewCall(jsonrpc2.NewStringID(""), "m", "e"))},
+		{"response", "str", must(jsonrpc2.NewResponse(jsonrpc2.NewStringID(""), "e", nil))},
 	}
 	out := make([]catMsg, len(raw))
 	for i, r := range raw {
@@ -256,6 +259,10 @@ func catalogue() []catMsg {
 			vhlib.Fatal("marshal catalogue message %d: %v", i, err)
 		}
 		out[i] = catMsg{Kind: r.kind, IDK: r.idk, ID: tidOfMsg(r.msg), Msg: r.msg, Body: body, Desc: describe(r.msg), Pay: payKind(r.msg)}
+		if i >= len(raw)-2 {
+			// constructed with NewStringID(""): the id the spec expects is the string "", whatever ID makes of it
+			out[i].ID = tid{T: "str", V: "", N: noNum}
+		}
 		if out[i].ID.T != r.idk {
 			vhlib.Fatal("catalogue message %d: id %v is not of kind %s", i, out[i].ID, r.idk)
 		}
@@ -640,6 +647,9 @@ func judge(b *behaviour, sent []string, o outcome) (sig, what string, drift bool
 		}
 		if k < len(b.IDs) && got != b.IDs[k] {
 			what := fmt.Sprintf("message %d was written with the %s id %s and read back with the %s id %s", k+1, idKind(b.IDs[k]), b.IDs[k].q(), idKind(got), got.q())
+			if b.IDs[k].T == "str" && b.IDs[k].V == "" && got.T == "num" && got.V == "0" {
+				return "Framing.IdsPreserved.EmptyStringId", what + ` (ID keeps "is a string" as name != "": the empty string id is the number 0)`, false
+			}
 			if got.T != b.IDs[k].T {
 				return "Framing.IdsPreserved.TypeChanged", what, false
 			}
@@ -665,10 +675,7 @@ func judge(b *behaviour, sent []string, o outcome) (sig, what string, drift bool
 	switch b.Class {
 	case "good":
 		if len(o.Decoded) != len(sent) {
-			sig := "Framing.Lossless." + b.Variant
-			if k := len(o.Decoded); k < len(b.sentPay) && strings.HasPrefix(sent[k], "response") {
-				sig = "Framing.Lossless.Response." + b.sentPay[k] // the frame that was lost is a response with this kind of result
-			}
+			sig := lostSig(b, sent, o)
 			return sig, fmt.Sprintf("only %d of %d well-formed frames were read back (%s); not read: %s", len(o.Decoded), len(sent), o.ErrText, sent[len(o.Decoded)]), false
 		}
 		if o.ErrCls != "eof-clean" {
@@ -679,14 +686,14 @@ func judge(b *behaviour, sent []string, o outcome) (sig, what string, drift bool
 			return "Framing.MalformedGivesError." + b.Variant, fmt.Sprintf("malformed frame %d was accepted as a message", b.At), false
 		}
 		if len(o.Decoded) < b.At-1 {
-			return "Framing.Lossless." + b.Variant, fmt.Sprintf("well-formed frame %d before the malformed one was not read (%s)", len(o.Decoded)+1, o.ErrText), false
+			return lostSig(b, sent, o), fmt.Sprintf("well-formed frame %d before the malformed one was not read (%s): %s", len(o.Decoded)+1, o.ErrText, sent[len(o.Decoded)]), false
 		}
 		if o.ErrCls != b.Err {
 			return "", "", true
 		}
 	case "lenient":
 		if len(o.Decoded) < b.At-1 {
-			return "Framing.Lossless." + b.Variant, fmt.Sprintf("well-formed frame %d before the unusual one was not read (%s)", len(o.Decoded)+1, o.ErrText), false
+			return lostSig(b, sent, o), fmt.Sprintf("well-formed frame %d before the unusual one was not read (%s): %s", len(o.Decoded)+1, o.ErrText, sent[len(o.Decoded)]), false
 		}
 		if len(o.Decoded) != len(b.Read) || o.ErrCls != b.Err {
 			return "", "", true
@@ -695,6 +702,24 @@ func judge(b *behaviour, sent []string, o outcome) (sig, what string, drift bool
 		vhlib.Fatal("unknown class %q", b.Class)
 	}
 	return "", "", false
+}
+
+// roundTripSig marks a failure seen only with the real writer in the loop; a root cause that has its own name
+// (the empty string id) keeps it, so that it is one finding whichever replay shows it.
+func roundTripSig(sig string) string {
+	if sig == "Framing.IdsPreserved.EmptyStringId" {
+		return sig
+	}
+	return strings.Replace(sig, "Framing.", "Framing.RoundTrip.", 1)
+}
+
+// lostSig names a well-formed frame that was not read back: a lost response is attributed to the kind of its
+// result (Framing.Lossless.Response.null: "result":null refused), anything else to the variant of the case.
+func lostSig(b *behaviour, sent []string, o outcome) string {
+	if k := len(o.Decoded); k < len(b.sentPay) && k < len(sent) && strings.HasPrefix(sent[k], "response") && o.ErrCls == "decode" {
+		return "Framing.Lossless.Response." + b.sentPay[k]
+	}
+	return "Framing.Lossless." + b.Variant
 }
 
 // how many decoded ids were compared with the spec's prediction, and how many of them were string ids that
@@ -1013,7 +1038,7 @@ func framing(path string, seed int64, splits int) {
 			if sig, what, _ := judge(&gb, sent, ro); sig != "" {
 				fails++
 				if rtFails++; rtFails <= 3 {
-					vhlib.Fail(strings.Replace(sig, "Framing.", "Framing.RoundTrip.", 1), "written by the real stream.Write, read by the real stream.Read: "+what,
+					vhlib.Fail(roundTripSig(sig), "written by the real stream.Write, read by the real stream.Read: "+what,
 						framingCase{Sent: sent, Variant: "none", Wire: string(rt), Chunks: ch, Mode: "roundtrip", Got: ro})
 				}
 			}
